@@ -61,6 +61,8 @@ pub fn run_check(context: &CheckContext) -> CheckOutcome {
     let campaigns = if std::env::var("VERIF_SKIP_SEQ").is_ok() { Vec::new() } else { seq_campaigns_with_scale(&context.property) };
     if !campaigns.is_empty() { outcome.assumptions.extend(seq_assumptions()); }
     for campaign in campaigns {
+        // debugging aid: VERIF_ONLY_CAMPAIGN=<name> runs just that sequential campaign
+        if let Ok(only) = std::env::var("VERIF_ONLY_CAMPAIGN") { if only != campaign.name { continue; } }
         let (report, violation) = run_seq_campaign(context, &campaign);
         outcome.reports.push(report);
         if let Some(violation) = violation {
@@ -276,6 +278,49 @@ fn run_conc_check(context: &CheckContext, mut outcome: CheckOutcome) -> CheckOut
         outcome.reports.push(report);
         if !outcome.violations.is_empty() { return outcome; }
     }
+    if context.property == "C13" {
+        // "every acknowledgement handed out before or during shutdown still completes ... so no caller waits forever": the
+        // completion by the drain loop (status ShuttingDown) must reach a caller that awaits with a waker, whichever
+        // waker it polled with last. Same controlled-schedule engine as C12, final status fixed to ShuttingDown.
+        use proptest::strategy::Strategy;
+        let run_case: std::sync::Arc<dyn Fn(&crate::ack::AckCase) -> CaseResult + Send + Sync> = std::sync::Arc::new(|case: &crate::ack::AckCase| {
+            let mut result = crate::ack::ack_case_result(case);
+            if let Some(failure) = &mut result.failure { if failure.property == "C12" && !failure.also.contains(&"C13".to_string()) { failure.also.push("C13".to_string()); } }
+            result
+        });
+        let (report, found) = run_campaign(context, "ack-shutting-down", "ACK",
+            "generated schedules of the acknowledgement (1-2 polling tasks, 1-3 polls each, same/new waker per poll, choice vector) completed with the status ShuttingDown, as the drain loop of shutdown does: every poll after completion yields ShuttingDown and the waker polled with last is woken; non-trivial = a poll step lies strictly between two steps of done()",
+            if thorough { 60_000 } else { 6000 }, std::sync::Arc::new(|| crate::ack::ack_case_strategy().prop_map(|mut case| { case.status = crate::base::St::ShuttingDown; case }).boxed()), run_case);
+        outcome.reports.push(report);
+        if let Some((case, failure)) = found {
+            let replay = Replay { property: "C13".to_string(), engine: "ACK".to_string(), campaign: "ack-shutting-down".to_string(), seed: context.seed, case: serde_json::to_value(&case).unwrap(), policy: json!({}), failure: Some(failure.clone()), note: "deterministic: the schedule is the choice vector".to_string() };
+            outcome.violations.push(Violation { replay_path: write_replay(&replay), failure });
+            return outcome;
+        }
+    }
+    if context.property == "C16" {
+        // volume: the sweeper and the command worker remove thousands of keys at the same time
+        let started = std::time::Instant::now();
+        let sizes: Vec<(u64, usize)> = if thorough { vec![(20_000, 2), (20_000, 4), (60_000, 2), (60_000, 8), (120_000, 2)] } else { vec![(20_000, 2), (20_000, 4)] };
+        let repeats = if thorough { 6 } else { 3 };
+        let mut report = CampaignReport { name: "volume-sweep-vs-delete".to_string(), engine: "CONC-DIRECTED".to_string(),
+            rule: "n keys with a TTL and n without are put, then every TTL key expires while a client deletes all the others: the sweeper and the command worker remove keys and release weight concurrently (both update the same counters); after every shard was swept twice the cache must be empty, KeysAdded == 2n, KeysAdded - KeysDeleted == keys held and WeightAdded - WeightRemoved == weight in use; one evaluation per (n, shards, repetition), all non-trivial (tens of thousands of concurrent removals each)".to_string(), ..CampaignReport::default() };
+        'volume: for (n, shards) in &sizes {
+            for _ in 0..repeats {
+                report.evaluations += 1;
+                report.distinct_nontrivial += 1;
+                if let Some(failure) = stats_stress_scenario(*n, *shards) {
+                    let replay = Replay { property: context.property.clone(), engine: "DIRECTED-C16".to_string(), campaign: "volume-sweep-vs-delete".to_string(), seed: context.seed, case: json!({"n": n, "shards": shards}), policy: json!({}), failure: Some(failure.clone()), note: "volume scenario; replay re-executes it 10 times".to_string() };
+                    outcome.violations.push(Violation { replay_path: write_replay(&replay), failure });
+                    break 'volume;
+                }
+            }
+        }
+        report.samples.push(json!({"sizes": sizes, "repeats": repeats}));
+        report.wall_s = started.elapsed().as_secs_f64();
+        outcome.reports.push(report);
+        if !outcome.violations.is_empty() { return outcome; }
+    }
     if matches!(context.property.as_str(), "C03" | "C06") {
         // directed regression scenario of the repaired finding F12 (phantom weight between the two steps of CacheWeight::delete)
         let started = std::time::Instant::now();
@@ -471,6 +516,7 @@ pub fn replay_file(property: &str, path: &str) -> i32 {
     let result = match replay.engine.as_str() {
         "SEQ" => replay_seq(&replay),
         "DIRECTED-F11" => Ok((0..20).find_map(|_| crate::conc::sweep_vs_reput_scenario(replay.case["delay_ms"].as_u64().unwrap_or(20)))),
+        "DIRECTED-C16" => Ok((0..10).find_map(|_| crate::conc::stats_stress_scenario(replay.case["n"].as_u64().unwrap_or(20_000), replay.case["shards"].as_u64().unwrap_or(2) as usize))),
         "DIRECTED-F12" => Ok((0..20).find_map(|_| crate::conc::phantom_weight_scenario(replay.case["delay_ms"].as_u64().unwrap_or(20)))),
         "CONC" => decode_case::<crate::conc::ConcCase>(&replay.case).map(|case| {
             // the stored failure is the observed one; try to reproduce it by re-executing
@@ -481,7 +527,7 @@ pub fn replay_file(property: &str, path: &str) -> i32 {
             println!("the program did not fail again in 150 executions; the recorded failing history is in the replay file (policy.observed_history)");
             None
         }),
-        "ACK" => decode_case::<crate::ack::AckCase>(&replay.case).map(|case| crate::ack::run_ack_case(&case).1),
+        "ACK" => decode_case::<crate::ack::AckCase>(&replay.case).map(|case| crate::ack::run_ack_case(&case).1.map(|mut failure| { if replay.property == "C13" && failure.property == "C12" { failure.also.push("C13".to_string()); } failure })),
         "ACK-STRESS" => Ok(crate::ack::stress(replay.case["puts"].as_u64().unwrap_or(40_000), replay.seed).1),
         "SKETCH" => decode_case::<crate::sketch::SketchCase>(&replay.case).map(|case| crate::sketch::run_sketch_case(&case).1),
         "SKETCH-TABLE" => Ok(crate::sketch::exhaustive_byte_table().1),
@@ -491,8 +537,8 @@ pub fn replay_file(property: &str, path: &str) -> i32 {
         Err(error) => { eprintln!("{}", error); 2 }
         Ok(None) => { println!("replay of {} passed (no oracle failed)", path); 0 }
         Ok(Some(failure)) => {
-            if failure.property == property || property == "any" {
-                println!("VIOLATION property={} replay={}", failure.property, path);
+            if failure.concerns(property) || property == "any" {
+                println!("VIOLATION property={} replay={}", if property == "any" { failure.property.as_str() } else { property }, path);
             } else {
                 println!("replay fails an oracle of {} (not {}):", failure.property, property);
             }
